@@ -21,3 +21,35 @@ PROPS["C19"] = {
     "assumptions": ["math.Log2/Ceil/Floor on float64 are validated by sweep, not modelled",
                     "ComputeId's uint32 arithmetic is modelled with explicit mod 2^32"],
 }
+
+POOL_ANCHORS = ["txcache/selection.go", "txcache/transactionsHeapItem.go", "txcache/selectionSessionWrapper.go",
+                "txcache/transactionsHeap.go", "txcache/wrappedTransaction.go", "txcache/txCache.go",
+                "txcache/txListForSender.go", "txcache/txListBySenderMap.go", "txcache/txByHashMap.go", "txcache/eviction.go",
+                "txcache/config.go"]
+POOL_RULE = ("histories over AddTx/RemoveTxByHash/Clear/SelectTransactions on a small alphabet (4 senders + relayer R, nonces 0..5 and "
+             "2^64-1/2^64-2, 3 gas prices, gas limits incl. 0/2^63/2^64-1, fees with forced PPU ties and values around 2^64 up to 2^130, "
+             "sizes, hashes of 1-4 bytes incl. prefix pairs; hash determines content); sessions with lookup failures, stale/future "
+             "account nonces, balances 0..2^140, guarded subsets; per-history config (NumChunks 1/2/16/128, per-sender limits, eviction "
+             "thresholds and batch sizes per property); exhaustive small scope per property (all pools of <= 4 (quick) / 5 (thorough) of a "
+             "10-tx alphabet x 2 sessions x 3 limits for selection; all op sequences of length 4 (quick) / 5 (thorough) over 9 ops for pool "
+             "contents). A history is non-trivial when it hits at least one recorded situation (see situations); distinct = distinct "
+             "canonical op sequences.")
+
+PROPS["C01"] = {
+    "runs": [{"component": "pool", "labels": {20, 21}, "n_quick": 1500, "n_thorough": 30000}],
+    "anchors": POOL_ANCHORS, "rule": POOL_RULE,
+    "explanation": "Theorems (Props/C01.v) hold for the selection ENVELOPE: any order of serving senders, any stopping point, any bunches "
+                   "that are single-sender and nonce-sorted. Correspondence: every SelectTransactions result of the implementation is fed "
+                   "back to the model, whose executable twin of the theorem statement (c01_holdsb, proved sound) judges it against the "
+                   "model's pool; the monitor evaluates the property text on the Go output independently.",
+    "assumptions": ["hash determines content", "SelectionSession answers are deterministic per call (stub)", "time budget not reached (1 h)"],
+}
+PROPS["C02"] = {
+    "runs": [{"component": "pool", "labels": {20, 22, 23, 24, 25, 26}, "n_quick": 1500, "n_thorough": 30000}],
+    "anchors": POOL_ANCHORS, "rule": POOL_RULE,
+    "explanation": "Theorems (Props/C02.v) for the selection envelope: members, distinct, count, true integer gas sum <= gasRequested, guard, "
+                   "balance walk with shared relayers and arbitrary Z balances. Correspondence: the model's executable twins judge every "
+                   "implementation result; monitors recompute all clauses with math/big.",
+    "assumptions": ["hash determines content", "fees and transferred values are non-nil / non-negative big.Ints as the host contract says",
+                    "time budget not reached (1 h)"],
+}
